@@ -899,7 +899,7 @@ def p_mp_setQualifier(p):
                 p.parser.log(
                     _format("Qualifier {0}:{1} already exists. Deleting...",
                             ns, qualdecl.name))
-            p.parser.handle.DeleteQualifier(qualdecl.name)
+            p.parser.handle.DeleteQualifier(qualdecl.name, namespace=ns)
             if p.parser.verbose:
                 p.parser.log(
                     _format("Setting qualifier {0}:{1}", ns, qualdecl.name))
